@@ -56,7 +56,11 @@ def convert_telegram_url_to_public(url):
 
     has_protocol = safe_url == url
 
-    scheme, netloc, path, query, fragment = urlsplit(safe_url)
+    # NOTE: a url that cannot be parsed is not a telegram url either
+    try:
+        scheme, netloc, path, query, fragment = urlsplit(safe_url)
+    except ValueError:
+        netloc = ""
 
     if not is_telegram_url(netloc):
         raise TypeError(
